@@ -73,6 +73,11 @@ class SQLLineageApp:
                     request_body_size = int(environ["CONTENT_LENGTH"])
                     request_body = environ["wsgi.input"].read(request_body_size)
                     payload = json.loads(request_body)
+                    # only plain request parameters reach the handlers: they build a Namespace from the payload, and a
+                    # "__dict__" member would replace that Namespace's attributes behind the check below
+                    payload = {
+                        k: v for k, v in payload.items() if not k.startswith("__")
+                    }
                     # compare normalised paths component-wise: a string prefix test lets "root/../.." and
                     # "root_sibling" through
                     root = os.path.abspath(self.root_path)
